@@ -167,3 +167,68 @@ Section Run.
       + constructor; [|constructor]. left. apply eps_pos.
   Qed.
 End Run.
+
+(** *** consequences for whole runs (added with the eighth round of seeded changes) *)
+Section RunConsequences.
+  Variable nb : Z.
+  Variable p : R.
+  Hypothesis Hnb : (0 <= nb)%Z.
+
+  (** the statistics in force never leave the interval spanned by the per-iteration statistics *)
+  Lemma stat_in_hull (s : nat -> R) (a b : R) : (0 < p)%R ->
+    (forall j, (1 <= j)%nat -> (a <= s j <= b)%R) ->
+    forall k, (1 <= k)%nat -> (a <= stat nb p s k <= b)%R.
+  Proof.
+    intros Hp Hs k. induction k as [|k IH]; intros Hk; [lia|].
+    destruct (Z_le_gt_dec (Z.of_nat (S k)) (nb + 1)) as [Hm|Hm].
+    - rewrite stat_memoryless by lia. apply Hs; lia.
+    - rewrite stat_convex by lia.
+      assert (He0 := eps_pos (Z.of_nat (S k)) nb p).
+      assert (He1 : (eps (Z.of_nat (S k)) nb p < 1)%R) by (apply eps_lt_1; [exact Hp | lia]).
+      assert (Hk1 : (1 <= k)%nat) by lia.
+      destruct (Hs (S k)) as [Ha Hb]; [lia|]. destruct (IH Hk1) as [Ia Ib].
+      set (e := eps (Z.of_nat (S k)) nb p) in *. split; nra.
+  Qed.
+
+  (** constant per-iteration statistics are reproduced exactly, whatever the power *)
+  Lemma stat_constant (s : nat -> R) (c : R) :
+    (forall j, (1 <= j)%nat -> s j = c) -> forall k, (1 <= k)%nat -> stat nb p s k = c.
+  Proof.
+    intros Hs k. induction k as [|k IH]; intros Hk; [lia|].
+    destruct (Z_le_gt_dec (Z.of_nat (S k)) (nb + 1)) as [Hm|Hm].
+    - rewrite stat_memoryless by lia. apply Hs; lia.
+    - rewrite stat_convex by lia. rewrite IH by lia. rewrite Hs by lia. ring.
+  Qed.
+
+  (** the memory-less phase leaves no trace: two runs whose per-iteration statistics agree from
+      iteration nb+1 on have the same statistics in force from iteration nb+1 on, whatever
+      happened during the memory-less phase *)
+  Lemma stat_forgets_burn_in (s s' : nat -> R) :
+    (forall j, (nb + 1 <= Z.of_nat j)%Z -> s j = s' j) ->
+    forall k, (nb + 1 <= Z.of_nat k)%Z -> stat nb p s k = stat nb p s' k.
+  Proof.
+    intros Hs k. induction k as [|k IH]; intros Hk; [lia|].
+    destruct (Z_le_gt_dec (Z.of_nat (S k)) (nb + 1)) as [Hm|Hm].
+    - rewrite !stat_memoryless by lia. apply Hs; lia.
+    - rewrite !stat_convex by lia. rewrite IH by lia. rewrite Hs by lia. reflexivity.
+  Qed.
+
+  (** and during the memory-less phase itself nothing earlier matters at all *)
+  Lemma stat_memoryless_local (s s' : nat -> R) k :
+    (1 <= k)%nat -> (Z.of_nat k <= nb + 1)%Z -> s k = s' k -> stat nb p s k = stat nb p s' k.
+  Proof. intros H1 Hk E. now rewrite !stat_memoryless. Qed.
+End RunConsequences.
+
+Lemma no_trace_example :
+  let s  := fun j : nat => match j with 1%nat => 7%R | 2%nat => 9%R | 3%nat => 3%R | _ => 4%R end in
+  let s' := fun j : nat => match j with 1%nat => 0%R | 2%nat => 0%R | 3%nat => 3%R | _ => 4%R end in
+  (forall j, (2 + 1 <= Z.of_nat j)%Z -> s j = s' j) /\ s 1%nat <> s' 1%nat /\ stat 2 1 s 1 <> stat 2 1 s' 1
+  /\ forall k, (2 + 1 <= Z.of_nat k)%Z -> stat 2 1 s k = stat 2 1 s' k.
+Proof.
+  intros s s'.
+  assert (H : forall j, (2 + 1 <= Z.of_nat j)%Z -> s j = s' j).
+  { intros j Hj. destruct j as [|[|[|j]]]; try lia; reflexivity. }
+  split; [exact H|]. split; [unfold s, s'; lra|]. split.
+  - rewrite !stat_memoryless by lia. unfold s, s'; lra.
+  - apply stat_forgets_burn_in; [lia | exact H].
+Qed.
